@@ -197,6 +197,25 @@ def contracts2(reg):
                                "forall((t, a, b, c, d), (range(0, Nt), range(0, N), range(0, N), range(0, N), range(0, N)), "
                                "self.data[t,a,b,c,d] == ite(%s, old(self.data)[t,a,b,c,d], 0))" % KEEP)]))
 
+    # the same projection as implemented by the Secular mix-in (secular.py: used by secularize(legacy=False) paths)
+    SEC = "quantarhei/qm/liouvillespace/secular.py::Secular"
+
+    def setup_secular(S, td):
+        n, nt = S.int("N"), S.int("Nt")
+        shape = (nt, n, n, n, n) if td else (n, n, n, n)
+        me = S.obj(SEC, label="self", as_operators=False, data=S.array("data", shape, "cx"))
+        return dict(self=me, N=n, Nt=nt)
+    reg.add(Contract(SEC + "._secularize_data", setup=lambda S: setup_secular(S, False), requires=["N >= 0"],
+                     modifies=["self.data"],
+                     ensures=[("secular-projection",
+                               "forall((a, b, c, d), (range(0, N), range(0, N), range(0, N), range(0, N)), "
+                               "self.data[a,b,c,d] == ite(%s, old(self.data)[a,b,c,d], 0))" % KEEP)]))
+    reg.add(Contract(SEC + "._secularize_data#timedependent", setup=lambda S: setup_secular(S, True),
+                     requires=["N >= 0", "Nt >= 0"], modifies=["self.data"],
+                     ensures=[("secular-projection-at-every-time",
+                               "forall((t, a, b, c, d), (range(0, Nt), range(0, N), range(0, N), range(0, N), range(0, N)), "
+                               "self.data[t,a,b,c,d] == ite(%s, old(self.data)[t,a,b,c,d], 0))" % KEEP)]))
+
     # ---- completion of rate-only tensors ------------------------------------------------------------------------
     def setup_upd(S):
         n = S.int("N")
@@ -638,6 +657,8 @@ def plan(ctx):
                    RT + "RedfieldRelaxationTensor._implementation#operators",
                    RT + "RedfieldRelaxationTensor._implementation#tensor",
                    RX + "RelaxationTensor.secularize", RX + "RelaxationTensor.secularize#timedependent",
+                   "quantarhei/qm/liouvillespace/secular.py::Secular._secularize_data",
+                   "quantarhei/qm/liouvillespace/secular.py::Secular._secularize_data#timedependent",
                    RX + "RelaxationTensor.updateStructure", RX + "RelaxationTensor.updateStructure#timedependent",
                    TD + "TDRedfieldRelaxationTensor._convert_operators_2_tensor",
                    TD + "TDRedfieldRelaxationTensor.secularize",
